@@ -122,6 +122,16 @@ func engBaseDoc(src []string) *document.Document {
 			_ = in.SetCellText(0, 0, "nested {{v}}")
 		}
 	}
+	// a second table whose {{#each items}} row holds a nested table in one of its cells (items are maps)
+	if t, err := d.AddTable(&document.TableConfig{Rows: 2, Cols: 2, Width: 4000}); err == nil && t != nil {
+		_ = t.SetCellText(0, 0, "Name")
+		_ = t.SetCellText(0, 1, "Detail")
+		_ = t.SetCellText(1, 0, "{{#each items}}{{name}}")
+		_ = t.SetCellText(1, 1, "d {{/each}}")
+		if in, err := t.AddNestedTable(1, 1, &document.TableConfig{Rows: 1, Cols: 1, Width: 1000}); err == nil && in != nil {
+			_ = in.SetCellText(0, 0, "of {{name}}")
+		}
+	}
 	return d
 }
 
